@@ -150,7 +150,7 @@ func doCheck(id, tier string) int {
 	}
 	var aggs []*agg
 	for _, r := range spec.runs {
-		cfg := &poolCfg{eng: r.spec, sites: b.sites, seed: seed, tier: tier, workers: workersFor(tier), stallKill: 300 * time.Second, emitFirst: 2, extra: r.extra, perProc: r.perProc}
+		cfg := &poolCfg{eng: r.spec, sites: b.sites, seed: seed, tier: tier, workers: workersFor(tier), stallKill: 300 * time.Second, emitFirst: 2, extra: r.extra, perProc: r.perProc, unmodelled: b.instr.Unmodelled}
 		if r.spec.race {
 			cfg.bin = b.workerR
 		} else {
@@ -321,19 +321,19 @@ func doCheck(id, tier string) int {
 		"seed":        int64(seed),
 		"level":       spec.level,
 		"coverage": map[string]any{
-			"evaluations":           evals,
-			"distinct_nontrivial":   distinctNT,
-			"rule":                  spec.rule,
-			"samples":               samples,
-			"explanation":           spec.explanation,
-			"engines":               perEngine,
-			"counters":              allStats,
-			"simulated_time":        "this library has no clock; simulated time is the yield/event sequence: see counters.*.steps",
-			"instrumentation":       map[string]any{"sites_S": b.instr.NS, "sites_F": b.instr.NF, "sites_O": b.instr.NO, "lock_statements": b.instr.NLock, "spin_loop_sites": b.instr.NLoop, "files": b.instr.Files},
-			"real_code":             spec.real,
-			"stubs":                 spec.stubs,
-			"build_s":               round1(b.buildSecs),
-			"infrastructure_errors": infraErrs,
+			"evaluations":             evals,
+			"distinct_nontrivial":     distinctNT,
+			"rule":                    spec.rule,
+			"samples":                 samples,
+			"explanation":             spec.explanation,
+			"engines":                 perEngine,
+			"counters":                allStats,
+			"simulated_time":          "this library has no clock; simulated time is the yield/event sequence: see counters.*.steps",
+			"instrumentation":         map[string]any{"sites_S": b.instr.NS, "sites_F": b.instr.NF, "sites_O": b.instr.NO, "lock_statements": b.instr.NLock, "spin_loop_sites": b.instr.NLoop, "files": b.instr.Files},
+			"real_code":               spec.real,
+			"stubs":                   spec.stubs,
+			"build_s":                 round1(b.buildSecs),
+			"infrastructure_errors":   infraErrs,
 			"address_space_cap_notes": capNotes,
 		},
 		"assumptions": spec.assumptions,
